@@ -619,7 +619,7 @@ fn shim_str_ends_with_1(s: &str, cs: [char; 1]) -> (r: bool)
     if len(loops) != 2 or loops[0][0] != "while" or loops[1][0] != "for":
         raise AnchorLost("parse_obfuscated_bytecode_signature: expected `while let` with one inner `for`")
     mi = re.search(r"let\s+mut\s+(\w+)\s*=\s*(\w+)\.char_indices\(\)\s*;", ps.orig)
-    mf = re.search(r"let\s+mut\s+(\w+)\s*=\s*0\s*;", ps.orig)
+    mf = re.search(r"let\s+mut\s+(\w+)\s*=\s*\d+\s*;", ps.orig)
     mt = re.search(r"let\s+mut\s+(\w+)\s*:\s*Vec<&str>\s*=\s*Vec::new\(\)\s*;", ps.orig)
     mw = re.search(r"while\s+let\s+Some\(\((\w+),\s*(\w+)\)\)", ps.orig)
     ml = re.search(r"let\s+mut\s+(\w+)\s*=\s*%s\s*;" % (mw.group(1) if mw else "idx"), ps.orig)
